@@ -37,7 +37,7 @@ RULE = (
     "Hypothesis draws (store kind in json/pickle/text/binary/touch, direct or through "
     "TestMountedFileStore, str or pathlib path, encoding, 1-4 successive values of the store's "
     "domain); after every write: read()==value with exact types at every level, modified time "
-    "not None and not decreasing; before the first write: modified time None. Text values carry interesting code points (BOM, line terminators, Ctrl-Z) at their first/last position. Time-zone family: successive writes at instants around DST transitions (file mtime set with os.utime) under 7 process time zones; the reported modified times never decrease as instants. Non-trivial = some "
+    "not None and not decreasing; before the first write: modified time None. Text values carry interesting code points (BOM, line terminators, Ctrl-Z) at their first/last position. The path may be spelled absolute or relative to the working directory (bare name, ./name, sub/name) and may hold foreign content before the first write. Time-zone family: successive writes at instants around DST transitions (file mtime set with os.utime) under 7 process time zones; the reported modified times never decrease as instants. Non-trivial = some "
     "value contains a control character / line terminator / non-ASCII code point, or nests >= 3 "
     "deep, or serialises to >= 64 KiB. Distinct = SHA-1 of the canonical case JSON."
 )
